@@ -27,6 +27,8 @@ pub struct AcoCase {
     /// None = ant system (decay coefficient 1), Some((max, min)) = max-min
     pub bounds: Option<(f64, f64)>,
     pub default_pher: f64,
+    /// decay coefficient of the ant-system update: every rewarded tour deposits decay / length
+    pub decay: f64,
     pub via_template: bool,
 }
 
@@ -161,7 +163,7 @@ fn observer(c: AcoCase, data: Arc<Mutex<AcoData>>) -> StepObserver<TspP> {
                         }
                         for &ti in rewarded {
                             let (tour, len) = &tours[ti];
-                            let delta = 1.0 / len;
+                            let delta = if c.bounds.is_some() { 1.0 / len } else { c.decay / len };
                             for w in tour.windows(2) {
                                 r[w[0]][w[1]] += delta;
                                 r[w[1]][w[0]] += delta;
@@ -221,13 +223,13 @@ fn spec_for(c: &AcoCase, iters: u32) -> Spec<TspP> {
             let c = &c2;
             if c.via_template {
                 match c.bounds {
-                    None => aco::ant_system(aco::ASParameters::verif_new(c.ants, c.alpha, c.beta, c.default_pher, c.evap, 1.0), cond),
+                    None => aco::ant_system(aco::ASParameters::verif_new(c.ants, c.alpha, c.beta, c.default_pher, c.evap, c.decay), cond),
                     Some((mx, mn)) => aco::max_min_ant_system(aco::MMASParameters::verif_new(c.ants, c.alpha, c.beta, c.default_pher, c.evap, mx, mn), cond),
                 }
             } else {
                 let generation = AcoGeneration::new::<TspP>(c.ants, c.alpha, c.beta, c.default_pher);
                 let update = match c.bounds {
-                    None => AsPheromoneUpdate::new::<TspP>(c.evap, 1.0),
+                    None => AsPheromoneUpdate::new::<TspP>(c.evap, c.decay),
                     Some((mx, mn)) => MinMaxPheromoneUpdate::new::<TspP>(c.evap, mx, mn)?,
                 };
                 Ok(mahf::Configuration::builder()
@@ -253,23 +255,30 @@ pub fn cases(thorough: bool) -> Vec<AcoCase> {
             if n == 6 && ants == 1 && !thorough {
                 continue;
             }
-            v.push(AcoCase { cities: n, instance: 0, ants, alpha, beta, evap, bounds: None, default_pher: dp, via_template: ants == 2 });
-            v.push(AcoCase { cities: n, instance: 0, ants, alpha, beta, evap, bounds: Some((2.0, 0.5)), default_pher: dp, via_template: ants != 2 });
+            v.push(AcoCase { cities: n, instance: 0, ants, alpha, beta, evap, bounds: None, default_pher: dp, decay: 1.0, via_template: ants == 2 });
+            v.push(AcoCase { cities: n, instance: 0, ants, alpha, beta, evap, bounds: Some((2.0, 0.5)), default_pher: dp, decay: 1.0, via_template: ants != 2 });
         }
     }
     for n in [3usize, 4] {
         for (ants, alpha, beta, evap, dp) in [(2usize, 1.0, 1.0, 1.0, 1.0), (1, 1.0, 1.0, 0.1, 0.0), (2, 2.0, 0.0, 1.0, 0.0)] {
-            v.push(AcoCase { cities: n, instance: 0, ants, alpha, beta, evap, bounds: None, default_pher: dp, via_template: ants == 2 });
+            v.push(AcoCase { cities: n, instance: 0, ants, alpha, beta, evap, bounds: None, default_pher: dp, decay: 1.0, via_template: ants == 2 });
+        }
+    }
+    // parameters at the edge of their range: no evaporation with reinforcement, evaporation without
+    // reinforcement (decay coefficient 0), a decay coefficient other than 1
+    for n in [3usize, 4] {
+        for (evap, decay) in [(0.0, 1.0), (0.5, 0.0), (0.0, 0.0), (0.1, 2.5)] {
+            v.push(AcoCase { cities: n, instance: 0, ants: 2, alpha: 1.0, beta: 1.0, evap, bounds: None, default_pher: 1.0, decay, via_template: n == 3 });
         }
     }
     if thorough {
-        v.push(AcoCase { cities: 10, instance: 0, ants: 2, alpha: 1.0, beta: 1.0, evap: 0.25, bounds: None, default_pher: 1.0, via_template: true });
-        v.push(AcoCase { cities: 6, instance: 1, ants: 2, alpha: 1.0, beta: 1.0, evap: 1.0, bounds: Some((2.0, 0.5)), default_pher: 0.0, via_template: true });
+        v.push(AcoCase { cities: 10, instance: 0, ants: 2, alpha: 1.0, beta: 1.0, evap: 0.25, bounds: None, default_pher: 1.0, decay: 1.0, via_template: true });
+        v.push(AcoCase { cities: 6, instance: 1, ants: 2, alpha: 1.0, beta: 1.0, evap: 1.0, bounds: Some((2.0, 0.5)), default_pher: 0.0, decay: 1.0, via_template: true });
     }
     // two tight clusters separated by an astronomically large distance
     for (ants, alpha, beta) in [(2usize, 1.0, 2.0), (1, 2.0, 5.0)] {
-        v.push(AcoCase { cities: 4, instance: 2, ants, alpha, beta, evap: 0.1, bounds: None, default_pher: 1.0, via_template: true });
-        v.push(AcoCase { cities: 4, instance: 2, ants, alpha, beta, evap: 0.1, bounds: Some((2.0, 0.5)), default_pher: 1.0, via_template: false });
+        v.push(AcoCase { cities: 4, instance: 2, ants, alpha, beta, evap: 0.1, bounds: None, default_pher: 1.0, decay: 1.0, via_template: true });
+        v.push(AcoCase { cities: 4, instance: 2, ants, alpha, beta, evap: 0.1, bounds: Some((2.0, 0.5)), default_pher: 1.0, decay: 1.0, via_template: false });
     }
     for &n in &cities {
         for inst in 0..2u8 {
@@ -277,13 +286,13 @@ pub fn cases(thorough: bool) -> Vec<AcoCase> {
                 if !thorough && (ants == 3 || (inst == 1 && alpha == 2.0 && beta == 2.0)) {
                     continue;
                 }
-                v.push(AcoCase { cities: n, instance: inst, ants, alpha, beta, evap, bounds: None, default_pher: 1.0, via_template: ants != 1 });
+                v.push(AcoCase { cities: n, instance: inst, ants, alpha, beta, evap, bounds: None, default_pher: 1.0, decay: 1.0, via_template: ants != 1 });
                 if ants >= 1 {
                     for (mx, mn, dp) in [(2.0, 0.5, 1.0), (1.0, 0.1, 1.0), (1.0, 0.01, 5.0), (3.0, 2.0, 0.5)] {
                         if dp != 1.0 && (inst == 1 || ants == 3) {
                             continue;
                         }
-                        v.push(AcoCase { cities: n, instance: inst, ants, alpha, beta, evap, bounds: Some((mx, mn)), default_pher: dp, via_template: ants != 2 });
+                        v.push(AcoCase { cities: n, instance: inst, ants, alpha, beta, evap, bounds: Some((mx, mn)), default_pher: dp, decay: 1.0, via_template: ants != 2 });
                     }
                 }
             }
